@@ -118,6 +118,12 @@ def build_client_scenarios(g, tier, rnd):
             for fault in (("close", "reset") if tier == "thorough" else (rnd.choice(("close", "reset")),)):
                 for c in (("deadline", "cancel") if tier == "thorough" else (rnd.choice(("deadline", "cancel")),)):
                     scen.append({"client": client, "fault": fault, "at": "b0", "model_at": "b0", "ncalls": 1, "ctx": c, "retry": True})
+        # a call answered with an HTTP error status and a body on a connection that stays open: it ends with an error, and nothing of it
+        # is left after Close while the peer is still there
+        if client in ("json", "sse"):
+            for at in ("status-503", "status-404"):
+                for n in ((1, 3) if tier == "thorough" else (rnd.choice((1, 2, 3)),)):
+                    scen.append({"client": client, "fault": "status", "model_fault": "close", "at": at, "model_at": "b0", "ncalls": n, "ctx": "none"})
         # sampled byte offsets of the answer
         noff = 24 if tier == "thorough" else 3
         for _ in range(noff):
